@@ -29,6 +29,14 @@ def check(run, tier):
         p = programs.worklist_program(r, f"C11/r{i}", dev, r.randint(3, 12), unit=Fraction(1), maxunits=40, wlmax=r.choice([2, 3, 5]),
                                       comps=False, direct=True, flags={"fullhist": True}, autosplit=(i % 4 != 1))
         progs.append(p)
+    # histories with rejected operations in between: what was logged before stays as it was (C11.keeps, C11.fullkeeps)
+    for i in range(40 if q else 1000):
+        dev = "evo" if i % 2 == 0 else "fluent"
+        progs.append(programs.worklist_program(r, f"C11/f{i}", dev, r.randint(4, 10), unit=Fraction(1), maxunits=20, wlmax=r.choice([2, 3, 5]),
+                                               comps=False, direct=True, fault=0.3, flags={"fullhist": True}))
+    # two different labware objects that carry the same name (a transfer between them is not a same-labware transfer)
+    for dev in ("evo", "fluent"):
+        progs += [p for p in targeted.history_programs(dev, same_name=True)]
     # specification -> code: behaviours enumerated by TLC on the bounded model, replayed on the implementation
     for cfg in ("MC_TwinGen_mixed2",) if q else ("MC_TwinGen_mixed2", "MC_TwinGen_mixed3"):
         mprogs, res = behaviours.generate(cfg, timeout=3000)
